@@ -93,6 +93,7 @@ def ser_symbol(s):
     dims = [ser(d) for part in s.dimensions for d in part if not _is_none(d)]
     out = {"name": s.name, "prefixes": list(s.prefixes), "type": tname, "dims": dims, "order": s.order}
     out["value"] = ser(s.value)
+    out["attrs"] = {a: ser(getattr(s, a)) for a in ("value", "min", "max", "start", "fixed", "nominal")}
     return out
 
 
@@ -516,6 +517,39 @@ class Oracle:
             return for_layout(rows)
         raise Unsupported("equation kind " + k)
 
+    # ---- variable metadata (value, min, max, start, fixed, nominal per element) -------------------
+    META_DEFAULT = {"value": "nan", "min": "-inf", "max": "inf", "start": "0/1", "fixed": "0/1", "nominal": "0/1"}
+
+    def metadata(self, var_lists, overrides=None):
+        """Expected output of `variable_metadata_function` at this point: one flat (column-major) n x 6
+        matrix per list (states, alg_states, inputs, parameters, constants); an attribute is its declared
+        expression evaluated with the parameter values of the point, else the default."""
+        overrides = overrides or {}
+        out = []
+        for l in ("states", "alg_states", "inputs", "parameters", "constants"):
+            cols = []
+            for a in ("value", "min", "max", "start", "fixed", "nominal"):
+                col = []
+                for name, r, c in var_lists[l]:
+                    n = r * c
+                    if (name, a) in overrides:
+                        col += [qs(F(overrides[(name, a)]))] * n
+                        continue
+                    node = (self.syms.get(name) or {}).get("attrs", {}).get(a, {"k": "none"})
+                    if node["k"] == "none":
+                        col += [self.META_DEFAULT[a]] * n
+                        continue
+                    v = self.ev(node, {}, self.syms)
+                    if isinstance(v, list):
+                        if len(v) != n:
+                            raise Unsupported("attribute shape")
+                        col += [qs(x) for x in v]
+                    else:
+                        col += [qs(v)] * n
+                cols += col
+            out.append(cols)
+        return out
+
     def residuals(self, which="equations"):
         self.delay_counter = 0
         out = []
@@ -628,7 +662,10 @@ class RealModel:
                 for a in ("value", "min", "max", "start", "fixed", "nominal"):
                     x = getattr(v, a)
                     if isinstance(x, (ca.MX, ca.DM)):
-                        row[a] = "MX:" + str(x)
+                        # a symbolic attribute is a representation (inlined or a call node): its *value* is
+                        # compared through the metadata function, here only that it is symbolic / its constant
+                        xm = ca.MX(x)
+                        row[a] = ("const:" + str(xm)) if xm.is_constant() else "symbolic"
                     elif isinstance(x, bool):
                         row[a] = x
                     elif isinstance(x, (int, float)):
@@ -987,7 +1024,9 @@ class ModelGen:
 
     make() -> case dict {text, name, points:[{name:[q,...]}], ranges:{idx:[a,s,b]}, stream, features}"""
 
-    def __init__(self, rng, npoints=3, count=None, loops=None, functions=None, delay=False, twin_calls=0.3):
+    def __init__(self, rng, npoints=3, count=None, loops=None, functions=None, delay=False, twin_calls=0.3,
+                 bilinear_attr=False):
+        self.bilinear_attr = bilinear_attr
         self.ranges = {}
         self.twin_calls = twin_calls
         self.rng = rng
@@ -1092,6 +1131,13 @@ class ModelGen:
             funcs_txt += t
             funcs.append(sig)
             feats.add("function")
+        if self.bilinear_attr:
+            # a function bilinear in its two arguments, used in attributes of variables (metadata function)
+            funcs_txt += ("function fb\n  input Real a;\n  input Real c;\n  output Real b;\nalgorithm\n"
+                          "  b := %s * a * c + %s * a - c / %s;\nend fb;\n"
+                          % (self.eg.pick(["1", "2", "3"]), self.eg.pick(["1", "2", "0.5"]), self.eg.pick(["2", "4"])))
+            funcs.append(("fb", 2, 1))
+            feats.add("bilinear-attribute")
         # only single-output functions are called inside expressions
         sc = Scope()
         sc.funcs = [f for f in funcs if f[2] == 1]
@@ -1109,9 +1155,9 @@ class ModelGen:
         has_n = r.random() < 0.6
         if has_n:
             declare("parameter", "Integer", "n0", "int:%d" % nval, (), str(nval))
-        for i in range(r.randint(1, 3)):
-            c = self.eg.pick(classes)
-            declare("parameter", "Real", "p%d" % i, c, (), self.eg.pick(LITS[c]))
+        for i in range(r.randint(2 if self.bilinear_attr else 1, 3)):
+            c = self.eg.pick(classes if not (self.bilinear_attr and i < 2) else ["gen", "pow2", "sq", "one"])
+            declare("parameter", "Real", "p%d" % i, c, (), self.eg.pick([x for x in LITS[c] if x != "0"] or LITS[c]))
             sc.atoms[c].append("p%d" % i)
         for i in range(r.randint(0, 2)):
             c = self.eg.pick(classes)
@@ -1121,9 +1167,11 @@ class ModelGen:
             c = self.eg.pick(classes)
             declare("input", "Real", "u%d" % i, c)
             sc.atoms[c].append("u%d" % i)
+        self._bilinear_used = False
+
         def attrs():
             """Attribute modifications, partly depending on parameters (metadata function of C12/C13)."""
-            if r.random() > 0.5:
+            if r.random() > 0.5 and not (self.bilinear_attr and not self._bilinear_used):
                 return ""
             ps = [w[0] for w in vars_ if w[0].startswith("p")]
             parts = []
@@ -1139,6 +1187,12 @@ class ModelGen:
                     else:
                         v = self.eg.pick(LITS["gen"])
                     parts.append("%s = %s" % (a, v))
+            if self.bilinear_attr and (r.random() < 0.5 or not self._bilinear_used):
+                a = self.eg.pick([x for x in ("start", "min", "max", "nominal") if not any(q.startswith(x) for q in parts)] or ["start"])
+                parts = [q for q in parts if not q.startswith(a)]
+                call = self.eg.pick(["fb(p0, p1)", "fb(p1, p0)", "fb(p0, p1) + 1", "2 * fb(p1, p0) - p0"])
+                parts.append("%s = %s" % (a, call))
+                self._bilinear_used = True
             if r.random() < 0.15:
                 parts.append("fixed = true")
             return "(%s)" % ", ".join(parts) if parts else ""
@@ -1217,6 +1271,8 @@ class ModelGen:
         for b in bools:
             eqs.append("  %s = %s;" % (b, self.eg.boolean(sc, 2)))
             self.count("eq:boolean")
+        if self.bilinear_attr:
+            eqs.append("  %s = fb(%s, %s);" % (self.eg.pick(algs), self.eg.gen(sc, 1), self.eg.gen(sc, 1)))
         # ---- multi-output function call
         multi = [f for f in funcs if f[2] == 2]
         if multi and len(algs) >= 2 and r.random() < 0.7:
